@@ -158,7 +158,8 @@ class Gen(object):
                     out[c["a"]] = self.value(dict(descs[c["a"]]), order.index(c["a"]), t["type"] or "")
             elif c["k"] == "any_property":
                 if not [n for n in out if n not in c["except"]]:
-                    n = [x for x in order if x not in c["except"] and descs[x]["kind"] in ("string", "integer", "boolean")][0]
+                    cands = [x for x in order if x not in c["except"]]
+                    n = ([x for x in cands if descs[x]["kind"] in ("string", "integer", "boolean")] or cands)[0]
                     out[n] = self.value(dict(descs[n]), order.index(n), t["type"] or "")
             elif c["k"] == "if_true":
                 if out.get(c["a"]) is True and c["b"] not in out:
